@@ -7,9 +7,9 @@ import (
 	"sort"
 	"time"
 
+	ipfslog "berty.tech/go-ipfs-log"
 	"berty.tech/go-ipfs-log/entry"
 	idp "berty.tech/go-ipfs-log/identityprovider"
-	ipfslog "berty.tech/go-ipfs-log"
 	"berty.tech/go-orbit-db/accesscontroller"
 	acorbit "berty.tech/go-orbit-db/accesscontroller/orbitdb"
 	"berty.tech/go-orbit-db/accesscontroller/simple"
